@@ -299,7 +299,10 @@ class Universe:
         resist = None
         if cat == int(EC.target) and mods and all(m['domain'] == int(D.target) for m in mods) and r.random() < 0.5:
             # a resistance attribute may itself be modified (its changes must be followed)
-            resist = r.choice(self.base_attrs + self.gen_attrs[:4])
+            # (only one below every attribute the effect modifies: a value resisted by itself, directly or
+            # through a chain, is a cyclic universe - not well-formed data)
+            low = min(m['tgt'] for m in mods)
+            resist = r.choice(self.base_attrs + [a for a in self.gen_attrs[:4] if a < low])
         chance = r.choice(self.base_attrs) if (cat == int(EC.passive) and r.random() < 0.2) else None
         return dict(cat=cat, chance=chance, resist=resist, mods=mods)
 
